@@ -556,6 +556,16 @@ func genCase(c *cond, r *rand.Rand) *vcase {
 		}
 		vc.Shapes = append(vc.Shapes, pshape{p.Name, shape, label})
 	}
+	// fields the condition does not declare (one request context routinely serves several conditions of a
+	// model): ignored by the evaluation, and no substitute for a declared parameter that has no value
+	if r.Intn(4) == 0 {
+		for k := 0; k <= r.Intn(3); k++ {
+			name := []string{"request_id", "tenant", "zz_other_condition_param"}[k]
+			if _, declared := req[name]; !declared {
+				req[name] = []W{wS("abc"), wN(7), wB(true)}[r.Intn(3)]
+			}
+		}
+	}
 	vc.Req, vc.Stored = req, stored
 	if len(req) == 0 && r.Intn(2) == 0 {
 		vc.Req = nil
